@@ -428,7 +428,7 @@ def watchdog_init(mem_gb=6):
         pass
 
 
-TIMEOUT_S = 2.0
+TIMEOUT_S = 10.0
 
 
 def guarded(fn, *a, **k):
